@@ -279,6 +279,72 @@ theorem processLevel_shape {Ro Ri Rp : Array P → Prop} (law : RingLaw Ro Ri Rp
   obtain ⟨hpolys, _⟩ := finishLevel_some cfg.reverse core acc.pls polys hfin
   exact ⟨core, acc, hacc, hpolys, fun pg hpg => hc pg (by simpa using hpg), fun pl hpl => ha.2.2 pl hpl⟩
 
+/-! ### the same lift for predicates established ring by ring (not by `classify` alone) -/
+
+theorem processHoles_R' {Ro Ri Rp : Array P → Prop} (g : Grid) (hot : Nat → Quad → Bool) (l : Nat) (keep : Bool)
+    (holes : List (List Pt)) (hpr : ∀ ring ∈ holes, ∀ sp, processRing g hot l false ring = .ok sp → SplitR Ro Ri Rp sp)
+    (a a' : Acc) (ha : AccR Ro Ri Rp a) (h : processHoles g hot l keep holes a = .ok a') : AccR Ro Ri Rp a' := by
+  induction holes generalizing a with
+  | nil => simp only [processHoles, Except.ok.injEq] at h; subst h; exact ha
+  | cons hd tl ih =>
+    simp only [processHoles, bind, Except.bind] at h
+    split at h
+    · cases h
+    · rename_i sp hsp
+      exact ih (fun r hr => hpr r (List.mem_cons_of_mem _ hr)) (a.add sp keep)
+        (acc_add_R _ _ _ a sp keep ha (hpr hd List.mem_cons_self sp hsp)) h
+
+theorem levelAcc_R' {Ro Ri Rp : Array P → Prop} (g : Grid) (hot : Nat → Quad → Bool) (keep : Bool) (l : Nat) (rings : List (List Pt))
+    (hpr : ∀ isOuter, ∀ ring ∈ rings, ∀ sp, processRing g hot l isOuter ring = .ok sp → SplitR Ro Ri Rp sp)
+    (acc : Acc) (h : levelAcc g hot keep l rings = .ok (some acc)) : AccR Ro Ri Rp acc := by
+  have empty : AccR Ro Ri Rp {} := ⟨by intro r hr; simp at hr, by intro r hr; simp at hr, by intro r hr; simp at hr⟩
+  unfold levelAcc at h
+  cases rings with
+  | nil => simp only [Except.ok.injEq, Option.some.injEq] at h; subst h; exact empty
+  | cons outer holes =>
+    simp only [bind, Except.bind] at h
+    split at h
+    · cases h
+    · rename_i sp hsp
+      split at h
+      · simp [pure, Except.pure] at h
+      · split at h
+        · cases h
+        · rename_i a' ha'
+          simp only [pure, Except.pure, Except.ok.injEq, Option.some.injEq] at h
+          subst h
+          exact processHoles_R' g hot l keep holes (fun r hr => hpr false r (List.mem_cons_of_mem _ hr)) _ a'
+            (acc_add_R _ _ _ _ sp keep empty (hpr true outer List.mem_cons_self sp hsp)) ha'
+
+theorem assembleCore_shape' {Ro Ri Rp : Array P → Prop} (hio : ∀ r, Ri r → Ro r.reverse) (a : Acc) (core : Array Poly) (ha : AccR Ro Ri Rp a)
+    (h : assembleCore a = .ok core) : ∀ pg ∈ core.toList, PolyShape Ro Ri pg := by
+  unfold assembleCore at h
+  simp only [bind, Except.bind] at h
+  split at h
+  · cases h
+  · rename_i oi hoi
+    obtain ⟨o, i⟩ := oi
+    simp only [pure, Except.pure, Except.ok.injEq] at h
+    subst h
+    obtain ⟨ho, hi⟩ := dedupeF_R Ro Ri a.outers a.inners o i (fun r hr => ha.1 r (by simpa using hr)) (fun r hr => ha.2.1 r (by simpa using hr)) hoi
+    apply matchF_shape Ro Ri hio _ i _ hi
+    intro pg hpg
+    simp only [Array.toList_map, List.mem_map] at hpg
+    obtain ⟨r0, hr0, rfl⟩ := hpg
+    exact ⟨r0, [], by simp, ho r0 hr0, by intro h hh; cases hh⟩
+
+theorem processLevel_shape' {Ro Ri Rp : Array P → Prop} (hio : ∀ r, Ri r → Ro r.reverse) (g : Grid) (hot : Nat → Quad → Bool) (cfg : Config) (l : Nat)
+    (rings : List (List Pt)) (hpr : ∀ isOuter, ∀ ring ∈ rings, ∀ sp, processRing g hot l isOuter ring = .ok sp → SplitR Ro Ri Rp sp)
+    (polys : Array Poly) (h : processLevel g hot cfg l rings = .ok (some polys)) :
+    ∃ core : Array Poly, ∃ acc : Acc, levelAcc g hot cfg.keep l rings = .ok (some acc) ∧
+      polys = (if cfg.reverse then reversePolys core else core) ++ acc.pls.map (fun pl => #[pl]) ∧
+      (∀ pg ∈ core, PolyShape Ro Ri pg) ∧ (∀ pl ∈ acc.pls, Rp pl) := by
+  obtain ⟨acc, core, hacc, hcore, hfin⟩ := processLevel_some g hot cfg l rings polys h
+  have ha := levelAcc_R' g hot cfg.keep l rings hpr acc hacc
+  have hc := assembleCore_shape' hio acc core ha hcore
+  obtain ⟨hpolys, _⟩ := finishLevel_some cfg.reverse core acc.pls polys hfin
+  exact ⟨core, acc, hacc, hpolys, fun pg hpg => hc pg (by simpa using hpg), fun pl hpl => ha.2.2 pl hpl⟩
+
 /-! ### the instance: sizes and orientation -/
 
 def ShellOK (r : Array P) : Prop := 3 ≤ r.size ∧ 0 ≤ area2 r
